@@ -136,10 +136,11 @@ from sklearn.base import BaseEstimator, ClassifierMixin, RegressorMixin
 
 
 class _Base(BaseEstimator):
-    def __init__(self, p=0, ncls=0, labels="int"):
+    def __init__(self, p=0, ncls=0, labels="int", proba="none"):
         self.p = p
         self.ncls = ncls
         self.labels = labels
+        self.proba = proba
 
     def fit(self, X, y):
         Xl = [list(r) for r in X.values.tolist()]
@@ -149,6 +150,9 @@ class _Base(BaseEstimator):
         _tick()
         # a re-fitted instance keeps what it learned before: only a fresh clone gives the honest fit
         self.w_ = getattr(self, "w_", 0) + Fraction(self.p) + _fit_chk(Xl, yl)
+        if self.ncls:
+            dt = "int64" if self.labels == "int" else ("bool" if self.labels == "bool" else object)
+            self.classes_ = np.array([_lab_out(i, self.labels) for i in range(self.ncls)], dtype=dt)
         _STATE["serial"] += 1
         self.serial_ = _STATE["serial"]
         return self
@@ -165,7 +169,33 @@ class _Base(BaseEstimator):
 
 
 class C19Classifier(ClassifierMixin, _Base):
-    pass
+    """no predict_proba"""
+
+
+class C19ProbaClassifier(C19Classifier):
+    """a classifier WITH predict_proba whose `predict` is deliberately NOT the first argmax of `predict_proba`:
+    proba="last": the predicted class k shares the maximal probability with class 0 (ties are broken towards the last
+    class by `predict`, as seeded-RNG / last-wins tie-breaks do); proba="decoupled": the most probable class is
+    (k + 1) mod n (a `predict` that is another function of the data, as SVC(probability=True)).  The orchestrator as
+    documented stores what `predict` returned and never calls `predict_proba` (TSCStrategy does not expose it);
+    a call is logged as `q:` and counted like any estimator call."""
+
+    def predict_proba(self, X):
+        Xl = [list(r) for r in X.values.tolist()]
+        _STATE["log"].append("q:%d:%d:%d:%s:0" % (self.p, len(Xl), X.shape[1], show_rat(_pred_chk(Xl))))
+        _tick()
+        ks = [int(v) for v in _predict_rows(self.w_, Xl, self.ncls)]
+        P = np.zeros((len(ks), self.ncls))
+        for r, k in enumerate(ks):
+            if self.proba == "decoupled":
+                P[r, (k + 1) % self.ncls] = 0.75
+                P[r, k] = 0.25
+            elif k == 0:
+                P[r, 0] = 1.0
+            else:
+                P[r, 0] = 0.5
+                P[r, k] = 0.5
+        return P
 
 
 class C19Regressor(RegressorMixin, _Base):
@@ -269,7 +299,10 @@ def _build(c, run=None):
         tasks.append((TSCTask if ncls else TSRTask)(target="target", features=feats))
     strategies = []
     for s in (c["strategies"] if run is None else c["strategies"][:_ns(c, run)]):
-        est = (Cl if ncls else Rg)(p=s["p"], ncls=ncls, labels=c["labels"])
+        if ncls and c.get("proba"):
+            est = C19ProbaClassifier(p=s["p"], ncls=ncls, labels=c["labels"], proba=c["proba"])
+        else:
+            est = (Cl if ncls else Rg)(p=s["p"], ncls=ncls, labels=c["labels"])
         strategies.append((TSCStrategy if ncls else TSRStrategy)(est, name=s["name"]))
     return tasks, datasets, strategies, _cv_object(c)
 
@@ -662,6 +695,12 @@ def oracle(c, out):
                 fails.append((site + ":strategy-saved-unrequested", "run %d: %s saved although save_fitted_strategies was never set" % (i, k)))
             if w != hon_w[its[0]]:
                 fails.append((site + ":saved-strategy-differs-from-honest-fit", "run %d: %s learned %s, honest fit learns %s" % (i, k, w, hon_w[its[0]])))
+        # ---- only the documented estimator methods are called: fit, and predict for every stored prediction
+        for cl in calls:
+            if not cl.startswith(("f:", "p:")):
+                fails.append((site + ":undocumented-estimator-method-called",
+                              "run %d: the orchestrator called %s (q = predict_proba); stored predictions must come from predict" % (i, cl)))
+                break
         # ---- every fit is on a fresh clone
         for cl in calls:
             if cl.startswith("f:") and not cl.endswith(":0"):
@@ -810,7 +849,7 @@ def features(c, out):
                ("perm-int" if sorted(ri) == list(range(len(ri))) else "other-int"))))
         _rowidx_feats.append("rowidx=" + f_ri)
     f = _rowidx_feats + ["target=%s/%s" % (c["learner"][0], _tdtype(c) if c["labels"] not in ("str", "numstr") else c["labels"]),
-                         "store=" + c["store"], "cv=" + c["cv"]["kind"] + ("-shuffle" if c["cv"].get("shuffle") else ""),
+                         "proba=" + str(c.get("proba")) if _ncls(c) else "proba=n/a", "store=" + c["store"], "cv=" + c["cv"]["kind"] + ("-shuffle" if c["cv"].get("shuffle") else ""),
          "learner=" + c["learner"][0], "labels=" + c["labels"],
          "nstrat=%d" % len(c["strategies"]), "ndata=%d" % len(c["datasets"]), "nruns=%d" % len(c["runs"])]
     for i, r in enumerate(c["runs"]):
@@ -932,7 +971,7 @@ def _small_configs(rng, tier):
     cfgs.append({"store": "hdd", "learner": ["cls", 3], "labels": "int",
                  "datasets": [_dataset(rng, "d0", 4, 3, 3, explicit=False, rowidx="perm")],
                  "strategies": [{"name": "s0", "p": 1}, {"name": "s1", "p": 2}],
-                 "cv": {"kind": "kfold", "k": 2}})
+                 "cv": {"kind": "kfold", "k": 2}, "proba": "last"})
     # B: 1 strategy x 2 datasets x single split (regression)
     cfgs.append(_apply_tdtype({"store": "hdd", "learner": ["reg"], "labels": "int",
                  "datasets": [_dataset(rng, "da", 5, 2, 0, explicit=False, rowidx="gaps"),
@@ -943,7 +982,7 @@ def _small_configs(rng, tier):
     cfgs.append({"store": "hdd", "learner": ["cls", 2], "labels": "str",
                  "datasets": [_dataset(rng, "p0", 5, 2, 2, presplit=True, explicit=False)],
                  "strategies": [{"name": "a_x", "p": 0}, {"name": "b", "p": 3}],
-                 "cv": {"kind": "presplit", "k": 2}})
+                 "cv": {"kind": "presplit", "k": 2}, "proba": "decoupled"})
     if tier == "thorough":
         # D: 2 strategies x 2 datasets x 3-fold
         cfgs.append(_apply_tdtype({"store": "hdd", "learner": ["reg"], "labels": "int",
@@ -1024,6 +1063,10 @@ def _random_case(rng):
          "labels": rng.choice(["int", "int", "str"]) if ncls else "int",
          "datasets": dss, "strategies": [{"name": nm, "p": rng.randrange(-3, 8)} for nm in snames], "cv": cv}
     c = _apply_tdtype(c, _pick_tdtype(rng, ncls, c["labels"]))
+    if ncls:
+        pk = rng.choice([None, None, "last", "last", "decoupled"])
+        if pk:
+            c["proba"] = pk
     runs = []
     pot0 = rng.random() < 0.4
     saveF0 = rng.random() < 0.7 if store == "hdd" else rng.random() < 0.1
@@ -1062,7 +1105,7 @@ def _malformed(rng):
 def gen_cases(tier, rng):
     cases = []
     cases += _exhaustive(rng, tier)
-    for _ in range(200 if tier == "quick" else 3200):
+    for _ in range(200 if tier == "quick" else 2600):
         cases.append(_random_case(rng))
     cases += _malformed(rng)
     return cases
